@@ -248,6 +248,56 @@ Proof.
     rewrite Z.eqb_refl. reflexivity.
 Qed.
 
+
+(* ---------- whatever happens later: a context keeps its tags for ever ---------- *)
+Lemma step_ctx_kept : forall h o c, (exists x, zfind c (ctxs h) = Some x) -> c < next_ctx h ->
+    (exists x, zfind c (ctxs (fst (tstep good h o))) = Some x).
+Proof.
+  intros [ms cs nm nc cl] o c [x Hx] Hlt. simpl in *.
+  destruct o as [m | c0 m | c0 | m k v]; simpl.
+  - eauto.
+  - destruct (zfind m ms) as [addm|]; simpl; [|eauto].
+    destruct (map_of_ctx _ c0) as [cur|]; simpl; assert (c =? nc = false) as -> by lia; eauto.
+  - destruct (map_of_ctx _ c0) as [mid|]; simpl; eauto.
+  - destruct (existsb (fun x => x =? m) cl); simpl; [|eauto].
+    destruct (zfind m ms); simpl; eauto.
+Qed.
+
+Lemma run_old_unchanged : forall ops h c, th_wf h -> private h ->
+    (exists x, zfind c (ctxs h) = Some x) -> tags_of (trun good h ops) c = tags_of h c.
+Proof.
+  induction ops as [|o r IH]; intros h c W P Hc; simpl; [reflexivity|].
+  destruct (step_inv h o W P) as [W' P'].
+  rewrite IH; [apply step_old_unchanged; assumption|assumption|assumption|].
+  apply step_ctx_kept; [assumption|]. destruct Hc as [x Hx]. destruct W as (_ & W2 & _). eapply W2; eauto.
+Qed.
+
+Lemma trun_app : forall cfg a b h, trun cfg h (a ++ b) = trun cfg (trun cfg h a) b.
+Proof. induction a as [|o r IH]; intros b h; simpl; [reflexivity|apply IH]. Qed.
+
+(* calls made from one context that already carries tags (a session), each adding its own: the derived context shows
+   the session's tags extended by its own, and goes on showing exactly that whatever is derived, read or mutated
+   afterwards - siblings, later additions to the session, writes to the map that was passed in *)
+Theorem sibling_tags_for_ever : forall ops c m addm later,
+    let h := trun good th0 ops in
+    (exists x, zfind c (ctxs h) = Some x) -> zfind m (maps h) = Some addm ->
+    tags_of (trun good th0 (ops ++ TAdd c m :: later)) (next_ctx h) =
+      Some (tm_merge (match tags_of h c with Some t => t | None => [] end) addm)
+    /\ tags_of (trun good th0 (ops ++ TAdd c m :: later)) c = tags_of h c.
+Proof.
+  intros ops c m addm later h Hc Hm.
+  destruct (add_extends ops c m addm Hc Hm) as (c' & _ & -> & Hnew). fold h in Hnew.
+  rewrite trun_app. fold h. cbn [trun].
+  destruct (reach_wf_private ops) as [W P]. fold h in W, P.
+  destruct (step_inv h (TAdd c m) W P) as [W' P'].
+  split.
+  - rewrite run_old_unchanged; [exact Hnew|assumption|assumption|].
+    unfold tags_of in Hnew. destruct (map_of_ctx _ (next_ctx h)) eqn:E; [|discriminate].
+    unfold map_of_ctx in E. destruct (zfind (next_ctx h) _) eqn:E2; [eauto|discriminate].
+  - rewrite run_old_unchanged; [apply step_old_unchanged; assumption|assumption|assumption|].
+    apply step_ctx_kept; [assumption|]. destruct Hc as [x Hx]. destruct W as (_ & W2 & _). eapply W2; eauto.
+Qed.
+
 (* ---------- read is a copy ---------- *)
 Theorem read_is_a_copy : forall ops c t,
     let h := trun good th0 ops in
